@@ -50,6 +50,8 @@ func NewSolver(kind string, timeoutMs int) (*Solver, error) {
 		cmd = exec.Command("/usr/bin/z3", "-in")
 	case "z3-new":
 		cmd = exec.Command("z3-new", "-in")
+	case "cvc5-int":
+		cmd = exec.Command("cvc5", "--incremental", "--lang=smt2", "--solve-bv-as-int=sum", fmt.Sprintf("--tlimit-per=%d", timeoutMs))
 	case "cvc5":
 		cmd = exec.Command("cvc5", "--incremental", "--lang=smt2", fmt.Sprintf("--tlimit-per=%d", timeoutMs))
 	default:
@@ -83,7 +85,7 @@ func (s *Solver) send(line string) {
 
 func (s *Solver) Reset() {
 	s.send("(reset)")
-	if s.kind != "cvc5" {
+	if s.kind != "cvc5" && s.kind != "cvc5-int" {
 		s.send(fmt.Sprintf("(set-option :timeout %d)", s.timeoutMs))
 	} else {
 		s.send("(set-logic ALL)")
